@@ -61,7 +61,7 @@ pub fn plan(check: Check, seed: u64) -> (Profile, OpMix) {
             OpMix { tags: 40, serial: 12, restart: 5, clock: 8, evict: 8, resources: 2, ..mix },
         ),
         Check::C08 => (
-            Profile { p_tag: 30, removeparam: std::env::var("ADSIM_C08_FULL").is_ok(), perms: std::env::var("ADSIM_C08_FULL").is_ok(), ..base },
+            Profile { p_tag: 30, ..base },
             OpMix { tags: 18, serial: 25, restart: 15, clock: 5, evict: 5, resources: 5, queries: 25, ..mix },
         ),
     }
